@@ -311,20 +311,21 @@ Print Assumptions C01_generated_parser_implements_the_source_grammar_with_explic
 
 (* Grammars with invalid_ rules: the FIRST pass.  With error mode off (every ordinary parse starts that way) the generated
    parser computes exactly what the parser without its guarded alternatives computes (C12_flag_off_equals_parser_without_
-   guarded_alternatives); composed with the theorem above: for every grammar rs' that the STRIPPED module reads back as --
+   guarded_alternatives), and a *_without_invalid method switches nothing (Proofs/ExecUnwi.v); composed with the theorem above:
+   for every grammar rs' that the STRIPPED module ([first_pass_module]: guarded alternatives deleted, those marks removed) reads back as --
    decided per grammar with rs' := the source grammar without the alternatives that mention an invalid_ rule
    ([strip_rules] with the generator's own InvalidNodeVisitor table) -- whenever a rule's method returns or raises
    SyntaxError from a state whose flag is off, that is what the reference semantics of rs' prescribes. *)
 From Pegen Require Import Proofs.ExecStrip.
 Theorem C01_first_pass_implements_the_grammar_without_its_invalid_alternatives :
   forall K toks M aeval exact_types token_dict fm rs',
-  reads_back_with_actions rs' (strip_module M) = true ->
+  reads_back_with_actions rs' (first_pass_module M) = true ->
   (forall xs e vs, nodup_s xs = true -> Forall2 (fun x v => env_get e x = Some v) xs vs ->
      aeval (default_text xs) e = Some (match vs with [v] => v | _ => VList vs end)) ->
   (forall e v vs, env_get e "elem" = Some v -> env_get e "seq" = Some (VList vs) -> aeval "[elem] + seq" e = Some (VList (v :: vs))) ->
-  (forall a, plain_alt (strip_module M) a -> a_explicit a = true -> forall e1 e0,
+  (forall a, plain_alt (first_pass_module M) a -> a_explicit a = true -> forall e1 e0,
      (forall x, In x (conj_vars (a_conjs a)) -> env_get e1 x <> None) -> aeval (a_action a) (e1 ++ e0)%list = aeval (a_action a) e1) ->
-  (forall a, plain_alt (strip_module M) a -> a_explicit a = true -> forall e v, aeval (a_action a) e = Some v -> truthy v = true) ->
+  (forall a, plain_alt (first_pass_module M) a -> a_explicit a = true -> forall e v, aeval (a_action a) e = Some v -> truthy v = true) ->
   (forall s t, In t toks -> is_kind2 s = false -> expect_test K exact_types token_dict s t = String.eqb (tstr t) s) ->
   (forall s t, In t toks -> is_kind2 s = true -> expect_test K exact_types token_dict s t = kind2_test K M s t) ->
   forall fuel n st, find_rule rs' n <> None -> invalid st = false ->
@@ -342,13 +343,13 @@ Print Assumptions C01_first_pass_implements_the_grammar_without_its_invalid_alte
    widest statement of C01 that is a theorem.) *)
 Theorem C01_cached_first_pass_implements_the_grammar_without_its_invalid_alternatives :
   forall K toks M aeval exact_types token_dict fm rs',
-  reads_back_with_actions rs' (strip_module M) = true -> no_left_rec M = true ->
+  reads_back_with_actions rs' (first_pass_module M) = true -> no_left_rec M = true ->
   (forall xs e vs, nodup_s xs = true -> Forall2 (fun x v => env_get e x = Some v) xs vs ->
      aeval (default_text xs) e = Some (match vs with [v] => v | _ => VList vs end)) ->
   (forall e v vs, env_get e "elem" = Some v -> env_get e "seq" = Some (VList vs) -> aeval "[elem] + seq" e = Some (VList (v :: vs))) ->
-  (forall a, plain_alt (strip_module M) a -> a_explicit a = true -> forall e1 e0,
+  (forall a, plain_alt (first_pass_module M) a -> a_explicit a = true -> forall e1 e0,
      (forall x, In x (conj_vars (a_conjs a)) -> env_get e1 x <> None) -> aeval (a_action a) (e1 ++ e0)%list = aeval (a_action a) e1) ->
-  (forall a, plain_alt (strip_module M) a -> a_explicit a = true -> forall e v, aeval (a_action a) e = Some v -> truthy v = true) ->
+  (forall a, plain_alt (first_pass_module M) a -> a_explicit a = true -> forall e v, aeval (a_action a) e = Some v -> truthy v = true) ->
   (forall s t, In t toks -> is_kind2 s = false -> expect_test K exact_types token_dict s t = String.eqb (tstr t) s) ->
   (forall s t, In t toks -> is_kind2 s = true -> expect_test K exact_types token_dict s t = kind2_test K M s t) ->
   forall fuel n st, find_rule rs' n <> None -> invalid st = false -> cache st = [] ->
